@@ -45,6 +45,7 @@ import (
 	"log"
 	"net"
 	"os"
+	"strings"
 	"sync"
 	"sync/atomic"
 	"time"
@@ -547,7 +548,9 @@ func (server *SugarDB) handleConnection(conn net.Conn) {
 		}
 		if err != nil {
 			log.Println(err)
-			if _, err = w.Write([]byte(fmt.Sprintf("-Error %s\r\n", err.Error()))); err != nil {
+			// An error reply is a single line: CR/LF taken over from the client's arguments must not end it early.
+			errText := strings.NewReplacer("\r", " ", "\n", " ").Replace(err.Error())
+			if _, err = w.Write([]byte(fmt.Sprintf("-Error %s\r\n", errText))); err != nil {
 				log.Println(err)
 			}
 			continue
